@@ -176,6 +176,7 @@ theorem writeDatabasePage_journal (s s' : Eng) (pgno : Nat) (d : ByteArray) (h :
   obtain ⟨_, _, h⟩ := M_bind_ok h
   obtain ⟨_, _, h⟩ := M_bind_ok h
   obtain ⟨_, _, h⟩ := M_bind_ok h
+  obtain ⟨_, _, h⟩ := M_bind_ok h
   simp only [pure, Except.pure] at h
   injection h with h
   subst h
